@@ -34,7 +34,7 @@ type Spec struct {
 	ReplayMatches func(f *Failure, rr *ReplayResult) bool
 	// Post runs additional phases after the main fan-out; it may add failures to agg and keys to cov.
 	Post func(e *Env, s *Spec, agg *Agg, cov map[string]interface{}) error
-	// RequireProbes lists counters that must be non-zero in the thorough tier (else exit 2).
+	// RequireProbes lists counters that must be non-zero in a run without violations (else exit 2).
 	RequireProbes []string
 	// ExtraArgs are passed to every worker invocation.
 	ExtraArgs []string
@@ -227,10 +227,11 @@ func check(e *Env, s *Spec) (int, error) {
 	if err != nil {
 		return 2, err
 	}
-	if e.Tier == "thorough" {
+	if out.Violations == 0 {
+		// a clean result is believed only if the workload reached what it claims to reach
 		for _, p := range s.RequireProbes {
 			if agg.Counters[p] == 0 {
-				return 2, troublef("probe %q was never hit in the thorough tier: the workload or fault mix must change", p)
+				return 2, troublef("probe %q was never hit (%s tier): the workload or fault mix did not reach what the check claims to cover", p, e.Tier)
 			}
 		}
 	}
